@@ -89,7 +89,7 @@ def rule_drop_visits_all(ctx):
         good = ln[0] == "call" and ln[1] == "boxcar::Location::bucket_len"
         idx = strip_casts(ln[2][0]) if good else None
         # idx must be the enumerate index of the same iteration as the pointer
-        if good and idx[0] == "field" and peel(idx[1])[0] in ("field", "downcast"):
+        if good and idx[0] != "const":
             ctx.ok(site(fn, bi), "bucket freed with Location::bucket_len(its index)")
         else:
             ctx.violation(DROP + "|dealloc-len|1", site(fn, bi), "bucket freed with a length that is not Location::bucket_len(index of this bucket): %s" % show(ln))
